@@ -449,6 +449,29 @@ class Check:
         return 0
 
 
+def run_deps(ck, pids):
+    """dependency checks.  Property X is stated over operations whose correctness is property Y (the product of C01 multiplies with the
+    functors of C03 and is reachable through the handles of C14 and from several threads, C17; the creators of C09 include the setters
+    of C15; ...): an input on which Y fails is an input on which X fails.  The quick machinery of Y is run and what it finds is
+    reported under X (the replay file is Y's).  Not recursive."""
+    if getattr(ck, "aux", False):
+        return
+    import importlib
+    for pid in pids:
+        sub = Check(pid, "quick", ck.seed)
+        sub.aux = True
+        sub.finish = lambda *a, **kw: (1 if sub.violations else 0)
+        t0 = time.time()
+        importlib.import_module(pid).run(sub)
+        for what, path, no_input in sub.violations:
+            ck.violations.append(("[through %s, on which %s depends] %s" % (pid, ck.pid, what), path, no_input))
+        for name, st in sub.streams.items():
+            ck.streams["[%s] %s" % (pid, name)] = st
+        pr = sub.proof or {}
+        ck.cov.setdefault("dependency_checks", {})[pid] = {"obligations": pr.get("obligations", 0), "discharged": pr.get("discharged", 0),
+                                                          "theorems": pr.get("theorems", []), "violations": len(sub.violations), "wall_s": round(time.time() - t0, 1)}
+
+
 def load_known():
     p = os.path.join(ROOT, "known_findings.json")
     if not os.path.exists(p):
